@@ -251,26 +251,28 @@ def dstepCore (st : DState) (line : String) : DState × Option String :=
         if !check st.inst.cfg.access c path opUnlockAccount then (st, some "D")
         else if st.passOf.lookup path != some pass then (st, some "D")
         else
-          let accts := st.inst.cfg.accounts.map (fun x => if x.wallet == a.wallet && x.name == a.name then { x with unlockable := true } else x)
-          ({ st with inst := { st.inst with cfg := { st.inst.cfg with accounts := accts } } }, some "S")
+          -- the state change is `Op.setUnlockable` of the instance model
+          ({ st with inst := (step st.inst (.setUnlockable a.wallet a.name true)).1 }, some "S")
     | _, _, _ => bad st line
   | ["create", c, acct] =>
     match unhexStr c, unhexStr acct with
     | some c, some acct =>
-      match createAccount st.inst.cfg c acct acct.toUTF8.toList with
-      | some cfg' => ({ st with inst := { st.inst with cfg := cfg' } }, some "ok")
-      | none => (st, some "err")
+      -- the state change is `Op.create` of the instance model (what the history theorems speak about)
+      ({ st with inst := (step st.inst (.create c acct acct.toUTF8.toList)).1 },
+       some (if (createAccount st.inst.cfg c acct acct.toUTF8.toList).isSome then "ok" else "err"))
     | _, _ => bad st line
   -- wallet manager: lock / unlock a wallet (permission on the wallet name, the wallet must exist); no effect on listings
   | ["lockwallet", c, wn] =>
     match unhexStr c, unhexStr wn with
     | some c, some wn =>
-      (st, some (if walletExists st.inst.cfg wn && check st.inst.cfg.access c wn opLockWallet then "S" else "D"))
+      ({ st with inst := (step st.inst (.lockWallet c wn)).1 },
+       some (if walletExists st.inst.cfg wn && check st.inst.cfg.access c wn opLockWallet then "S" else "D"))
     | _, _ => bad st line
   | ["unlockwallet", c, wn] =>
     match unhexStr c, unhexStr wn with
     | some c, some wn =>
-      (st, some (if walletExists st.inst.cfg wn && check st.inst.cfg.access c wn "Unlock wallet" then "S" else "D"))
+      ({ st with inst := (step st.inst (.unlockWallet c wn)).1 },
+       some (if walletExists st.inst.cfg wn && check st.inst.cfg.access c wn "Unlock wallet" then "S" else "D"))
     | _, _ => bad st line
   -- judge C18: the implementation reported that it created this account (so later listings must show it)
   | ["jcreate", acct] =>
@@ -626,7 +628,11 @@ def dstepCore (st : DState) (line : String) : DState × Option String :=
   | ["locktrace"] => (st, none)
   | ["nocache"] => (st, none)
   | ["stallfirst", _] => (st, none)
+  | ["tracelog"] => (st, none)
   | ["pause", _] => (st, some "ok")
+  -- a second rules service on the storage path of a running instance: the directory lock refuses it
+  | ["twinprop", _, _, _, _] => (st, some "refused")
+  | ["twinatt", _, _, _, _] => (st, some "refused")
   | ["ltrace"] =>
     let tok (t : LTok) : String := match t with
       | .pre => "P" | .post => "Q" | .fetch => "F" | .store => "S" | .stored => "X" | .sign => "G"
@@ -649,7 +655,8 @@ def dstepCore (st : DState) (line : String) : DState × Option String :=
   | ["importsvc", k, a, b, c] =>
     match unhex k, a.toInt?, b.toInt?, c.toInt? with
     | some k, some a, some b, some c =>
-      ({ st with inst := { st.inst with db := importKey st.inst.db (toBytes48 k) { slot := a, src := b, tgt := c } } }, some "ok")
+      -- `Op.importRec` of the instance model: `importKey st.inst.db (toBytes48 k) …`
+      ({ st with inst := (step st.inst (.importRec k { slot := a, src := b, tgt := c })).1 }, some "ok")
     | _, _, _, _ => bad st line
   -- judge: released signatures observed on the implementation, evaluated by the Spec predicates
   | ["jatt", k, d] =>
@@ -675,9 +682,9 @@ def dstepCore (st : DState) (line : String) : DState × Option String :=
   | ["import", gvr, md, entries] =>
     match hs gvr, parseIFile md entries with
     | some gvr, some f =>
-      match importFile gvr st.inst.db f with
-      | .ok db' => ({ st with inst := { st.inst with db := db' } }, some "ok")
-      | .error => (st, some "err")
+      -- the state change is `Op.importCmd` of the instance model
+      ({ st with inst := (step st.inst (.importCmd gvr f)).1 },
+       some (match importFile gvr st.inst.db f with | .ok _ => "ok" | .error => "err"))
     | _, _ => bad st line
   | ["probeatt", pk, s, t] =>
     match unhex pk, s.toNat?, t.toNat? with
